@@ -658,11 +658,21 @@ NvmModule *asm_assemble(const char *source, AsmResult *result) {
         memcpy(line_buf, line_start, line_len);
         line_buf[line_len] = '\0';
 
-        /* Strip trailing comment */
-        char *comment = strchr(line_buf, ';');
-        if (comment) *comment = '\0';
-        comment = strchr(line_buf, '#');
-        if (comment) *comment = '\0';
+        /* Strip trailing comment (a ';' or '#' that is not inside a quoted string) */
+        {
+            bool in_str = false;
+            for (char *q = line_buf; *q; q++) {
+                if (in_str) {
+                    if (*q == '\\' && q[1]) q++;
+                    else if (*q == '"') in_str = false;
+                } else if (*q == '"') {
+                    in_str = true;
+                } else if (*q == ';' || *q == '#') {
+                    *q = '\0';
+                    break;
+                }
+            }
+        }
 
         /* Strip trailing whitespace */
         size_t len = strlen(line_buf);
